@@ -121,6 +121,19 @@ CHECKS["C11"] = (
     "DESIGN.md section 3, C11",
 )
 
+CHECKS["C12"] = (
+    "differential property-based testing (Hypothesis) of the built extension against the Rust core through a JSON-lines oracle",
+    "Hypothesis drives the freshly built extension module over constructor argument combinations, expressions from the harness generator, naive and aware datetimes (any zone, fold), with dedicated strategies for sun events with coordinates and for real DST transitions; exception classes, validate, str, repr, normalize and every evaluation result are compared with `ohv py-oracle`, which builds the documented equivalent context with the Rust core and contains no binding code; datetimes are compared on (naive local fields, zone key, fold).",
+    "Trusted: the oracle's reading of the constructor documentation; CPython 3.11 + Hypothesis 6.168 of the image. Inputs without a core equivalent (nonexistent local times, zones unknown to chrono-tz) are counted, not judged; the wall-clock default (time=None) is not compared. Binding calls cannot be work-capped, so the quick tier is 1 500 examples.",
+    "DESIGN.md section 3, C12",
+)
+CHECKS["C18"] = (
+    "property-based testing of result invariance: fresh-thread reference, permuted concurrent evaluation, enumerated first-use orders in fresh child processes",
+    "Generated query sets are answered once per query by a fresh thread (no history), then in order, in reverse order, on clones, and by 2-8 barrier-released threads walking different permutations on shared values or clones while evaluating unrelated expressions; fresh child processes race threads through enumerated orders of first use of the lazily initialised tables and of sun-event evaluation at several places; every answer must equal the reference.",
+    "Interleavings are sampled, not enumerated (the harness does not own the scheduler); first-use orders are enumerated (all 720 in the thorough tier). Queries over 20 000 day schedules answer TOO_FAR deterministically.",
+    "DESIGN.md section 3, C18, and section 8",
+)
+
 NOT_YET = {}
 
 def main():
@@ -161,7 +174,9 @@ def main():
             "add_only": True,
         },
         "engines": [
-            {"name": "ohv", "path": "harness", "serves_properties": sorted(CHECKS), "kind_free_text": "Rust harness: choice-sequence generators driven by proptest (seeded, sharded, shrinking) and exhaustive enumerators; reference models and differential/metamorphic oracles; replay files"},
+            {"name": "ohv", "path": "harness", "serves_properties": sorted(CHECKS), "kind_free_text": "Rust harness: choice-sequence generators driven by proptest (seeded, 64 shards, shrinking) and exhaustive enumerators; reference models and differential/metamorphic oracles; replay files"},
+            {"name": "c12.py", "path": "py/c12.py", "serves_properties": ["C12"], "kind_free_text": "Hypothesis driver for the Python extension, talking to `ohv py-oracle`"},
+            {"name": "libFuzzer", "path": "fuzz", "serves_properties": ["C04"], "kind_free_text": "cargo-fuzz targets parse_total and consistency (thorough tier of C04), oracles shared with the harness"},
         ],
         "checks": checks,
         "not_applicable": not_applicable,
